@@ -205,7 +205,14 @@ def install_mont(ex, pkg, q, rsquare_global):
 
     def frommont(ex_, args, ins):
         z = args[0]
-        X = val(limbs_of(ex_, z))
+        ls = limbs_of(ex_, z)
+        if not any(is_term(l) for l in ls):
+            xc = sum(l << (64 * i) for i, l in enumerate(ls))
+            vc = xc * pow(1 << 256, -1, q) % q
+            for i in range(4):
+                ex_.store_to(Ptr(z.obj, z.off + i, z.sym), (vc >> (64 * i)) & (W - 1), "uint64")
+            return ()
+        X = val(ls)
         V = UNMONT(X)
         ex_.ctx.add_fact(z3.Implies(z3.And(X >= 0, X < q), MONT(V) == X))
         put(ex_, z, V, "um")
